@@ -70,6 +70,8 @@ type Trace struct {
 	ModelOn     bool              `json:"model_on"`
 	ModelSkip   string            `json:"model_skip,omitempty"`
 	Overlap     bool              `json:"overlap"` // two API calls were in flight at the same time
+	CallAfterClose bool           `json:"call_after_close,omitempty"` // Subscribe / Unsubscribe was called after Close
+	SubsAtClose int               `json:"subs_at_close"`              // subscriptions that existed when Close was called (-1: Close not called)
 	StartOps    []StartOp         `json:"start_ops,omitempty"`
 	StartDone   bool              `json:"start_done"`
 	StartErr    string            `json:"start_err,omitempty"`
@@ -154,7 +156,7 @@ func Exec(spec *Spec) *Trace {
 	s := NewSched(spec.FaultK, spec.FailAfterClose, params)
 	s.FailFrom = spec.FailFrom
 	defer s.Detach()
-	tr := &Trace{Spec: spec}
+	tr := &Trace{Spec: spec, SubsAtClose: -1}
 	calls := map[string]*CallResult{}
 	callIdx := map[string]int{}
 	var callOrder []string
@@ -177,8 +179,9 @@ func Exec(spec *Spec) *Trace {
 						tr.Subs[c.Arg].Ended = "unsubscribe"
 					}
 				case "Close":
-					for _, st := range tr.Subs {
-						if st.Ended == "" {
+					// (the subscriptions that existed when Close was called)
+					for i, st := range tr.Subs {
+						if st.Ended == "" && i < tr.SubsAtClose {
 							st.Ended = "close"
 						}
 					}
@@ -251,6 +254,9 @@ func Exec(spec *Spec) *Trace {
 					q = subscriptionQuery
 				}
 				tr.Subs = append(tr.Subs, &SubTrace{})
+				if closeCalled {
+					tr.CallAfterClose = true
+				}
 				for _, c := range tr.Calls {
 					if c.Kind != "Start" && !c.Done {
 						tr.Overlap = true
@@ -270,6 +276,9 @@ func Exec(spec *Spec) *Trace {
 					return // one Unsubscribe per id OBTAINED
 				}
 				unsubCalled[a.Sub] = true
+				if closeCalled {
+					tr.CallAfterClose = true
+				}
 				for _, c := range tr.Calls {
 					if c.Kind != "Start" && !c.Done {
 						tr.Overlap = true
@@ -286,6 +295,7 @@ func Exec(spec *Spec) *Trace {
 					return
 				}
 				closeCalled = true
+				tr.SubsAtClose = len(tr.Subs)
 				for _, c := range tr.Calls {
 					if c.Kind != "Start" && !c.Done {
 						tr.Overlap = true
@@ -710,7 +720,7 @@ func Judge(tr *Trace) []Finding {
 	// C15 quantifies over API call SEQUENCES (x faults): the conversation grammar is judged on
 	// traces whose API calls did not overlap; overlapping calls are C13's subject.
 	for i, f := range tr.Frames {
-		if tr.Overlap {
+		if tr.Overlap || tr.CallAfterClose {
 			break
 		}
 		if closeAt >= 0 {
@@ -774,7 +784,7 @@ func cleanSpec(sp *Spec) bool {
 	if sp.FaultK != 0 || sp.FailFrom {
 		return false
 	}
-	apiSeen, acked := false, false
+	apiSeen, acked, closeSeen := false, false, false
 	for _, a := range sp.Actions {
 		switch a.Op {
 		case "lost":
@@ -782,6 +792,13 @@ func cleanSpec(sp *Spec) bool {
 		case "call":
 			if a.Kind != "Start" {
 				apiSeen = true
+			}
+			if a.Kind == "Close" {
+				closeSeen = true
+			} else if closeSeen {
+				// a call after Close (its writes may fail, its subscription may be unregistered
+				// again): not a conversation in which nothing can go wrong
+				return false
 			}
 		case "server":
 			if a.Frame == nil {
@@ -852,6 +869,9 @@ func GenSpec(r *core.Rng, id int, maxSubs, maxSrv, length int) *Spec {
 	}
 	// every third schedule is a conversation in which nothing can go wrong (no fault, no loss,
 	// only well-formed frames for known ids)
+	// every fifth schedule may go on calling Subscribe after Close (C13: any interleaving of
+	// application calls; the conversation grammar of C15 is not judged on those)
+	lateCalls := id%5 == 3
 	clean := id%3 == 1
 	if clean {
 		sp.FaultK, sp.FailFrom = 0, false
@@ -867,7 +887,7 @@ func GenSpec(r *core.Rng, id int, maxSubs, maxSrv, length int) *Spec {
 	threads := []string{"reader"}
 	for len(acts) < length {
 		switch k := r.Intn(100); {
-		case k < 10 && nsubs < maxSubs && !closed:
+		case k < 10 && nsubs < maxSubs && (!closed || lateCalls):
 			name := fmt.Sprintf("sub%d", nsubs)
 			acts = append(acts, Action{Op: "call", Kind: "Subscribe", T: name})
 			threads = append(threads, name)
